@@ -12,6 +12,8 @@
                   payload / signature inside one envelope;
      Verify    -- transcription of VerifySignature (FIXED = FALSE: the pinned code, which never
                   compares an entry's envelope key with the identity the entry names);
+     (Signing is a function of the values: the harness also signs a quarter of the cases with keys that sign another
+      advertisement first -- nothing of one signing may show in another.)
      Out       -- the declarative reading of C05: accepted iff nothing was changed, the main
                   provider is listed when there are extended providers, and every entry is
                   signed by the identity it names (the ad's signer for the main provider).   *)
